@@ -20,6 +20,11 @@ pub enum Mode {
     Typed,
     /// process history: compile ANOTHER program first (`warm_src`); its result is not compared
     Warm,
+    /// history of the TypedProgram OBJECT: the program this party type-checked once is first
+    /// compiled with OTHER constant values (another session of a service that type-checks once and
+    /// compiles per session); its result is not compared, but it must not leave anything behind
+    /// in the TypedProgram that changes the next compilation
+    TypedOther,
     /// through `compile_with_constants(src, consts)`, i.e. with the library's DEFAULT options (main
     /// only; the step's `opts` are what the defaults are documented to be: SSA, duplicate gates optimised)
     Default,
@@ -132,7 +137,7 @@ fn run_steps(prog: &ProgSpec, steps: &[Step]) -> Vec<(Outcome, Vec<ProbeRec>)> {
             Mode::Lib => outcome_of(guarded(|| compile_src(src, &s.fn_name, consts, s.opts, true))).0,
             Mode::Default => outcome_of(guarded(|| garble_lang::compile_with_constants(src, consts).map(|g| g.circuit))).0,
             Mode::Warm => outcome_of(guarded(|| compile_src(src, "main", std::collections::HashMap::new(), Opts { register: false, dedup: true }, false))).0,
-            Mode::Typed => {
+            Mode::Typed | Mode::TypedOther => {
                 if typed.is_none() {
                     let r = guarded(|| garble_lang::check(src));
                     typed = Some(match r {
@@ -141,6 +146,16 @@ fn run_steps(prog: &ProgSpec, steps: &[Step]) -> Vec<(Outcome, Vec<ProbeRec>)> {
                         Err(m) => Err(Outcome::Panic { msg: m }),
                     });
                 }
+                let consts = if s.mode == Mode::TypedOther {
+                    let other: Vec<ConstSpec> = prog
+                        .consts
+                        .iter()
+                        .map(|c| ConstSpec { val: if c.ty == "bool" { 1 - (c.val & 1) } else { c.val + 1 + (s.cap as i64 % 3) }, ..c.clone() })
+                        .collect();
+                    build_consts(&other, &s.perm, 0)
+                } else {
+                    consts
+                };
                 match typed.as_ref().unwrap() {
                     Ok(tp) => outcome_of(guarded(|| compile_typed(tp, &s.fn_name, consts, s.opts))).0,
                     Err(o) => o.clone(),
@@ -259,6 +274,9 @@ fn run_plain_party(prog: &ProgSpec, party: &PartySpec) -> Result<Vec<(Outcome, V
             input.push_str(&format!("WARM {}\n", hex(s.warm_src.as_deref().unwrap_or("").as_bytes())));
             continue;
         }
+        if s.mode == Mode::TypedOther {
+            continue;
+        }
         input.push_str("CLEAR\n");
         let order: Vec<usize> = if s.perm.len() == prog.consts.len() { s.perm.clone() } else { (0..prog.consts.len()).collect() };
         for i in order {
@@ -289,7 +307,7 @@ fn run_plain_party(prog: &ProgSpec, party: &PartySpec) -> Result<Vec<(Outcome, V
     let mut answers = text.lines();
     let mut res = vec![];
     for s in &party.steps {
-        if s.mode == Mode::Warm {
+        if s.mode == Mode::Warm || s.mode == Mode::TypedOther {
             res.push((Outcome::Ok { digest: "warm".into(), size: 0 }, vec![]));
             continue;
         }
@@ -399,7 +417,7 @@ pub fn judge(w: &World, r: &WorldResult) -> (Vec<Finding>, BTreeMap<String, u64>
                     *counters.entry(format!("{b}_build_party_completed")).or_insert(0) += 1;
                 }
                 for (si, (s, (o, _))) in party.steps.iter().zip(outs.iter()).enumerate() {
-                    if s.mode == Mode::Warm {
+                    if s.mode == Mode::Warm || s.mode == Mode::TypedOther {
                         *counters.entry("warm_compilations".into()).or_insert(0) += 1;
                         continue;
                     }
@@ -558,6 +576,21 @@ fn draw_party(p: &mut Prng, fns: &[String], nconsts: usize, light: bool) -> Part
             Step { fn_name: f, opts: o, mode, perm, cap, warm_src: None, src_offset: if p.chance(1, 2) { p.below(8) as u8 } else { 0 } }
         })
         .collect();
+    let mut steps: Vec<Step> = steps;
+    if typed_party && nconsts > 0 {
+        // other sessions of the same TypedProgram object, with other constant values, in between
+        let mut k = 0;
+        while k < steps.len() {
+            if steps[k].mode == Mode::Typed && p.chance(1, 2) {
+                let mut other = steps[k].clone();
+                other.mode = Mode::TypedOther;
+                other.cap = p.below(3) as usize;
+                steps.insert(k, other);
+                k += 1;
+            }
+            k += 1;
+        }
+    }
     PartySpec { keys, steps, process: false, alloc_limit: None, env_flip: vec![], build: None, cpus: None }
 }
 
@@ -618,6 +651,9 @@ pub fn make_world(plan: &Plan, seed: u64, idx: u64) -> (World, String, Prng) {
             gen::const_arith_program(&mut p)
         } else if p.chance(1, 25) {
             gen::scaled_program(&mut p)
+        } else if p.chance(1, 25) {
+            // sizes that come from constants: arrays in structs, parameters, tuples, loops
+            gen::const_sized_program(&mut p)
         } else if p.chance(1, if plan.tier.generated > 10_000 { 60 } else { 250 }) {
             // small programs around 64-bit literals, usize and shifts: what a 32-bit party sees differently
             gen::word_program(&mut p)
@@ -635,7 +671,13 @@ pub fn make_world(plan: &Plan, seed: u64, idx: u64) -> (World, String, Prng) {
         let depth = (4.0 * (1000.0f64).powf(p.below(10_000) as f64 / 10_000.0)) as usize;
         ("deep", format!("deep-{idx}-{depth}"), gen::deep_program(&mut p, depth))
     } else if idx >= plan.n_corpus + plan.tier.generated + plan.tier.ill_typed + plan.tier.big + plan.tier.concurrent {
-        ("huge", format!("huge-{idx}"), gen::huge_program(&mut p))
+        let first_huge = plan.n_corpus + plan.tier.generated + plan.tier.ill_typed + plan.tier.big + plan.tier.concurrent;
+        if idx == first_huge && plan.tier.huge > 1 {
+            // thorough tier: one program of more than 2^24 gates, compiled to a register circuit
+            ("huge", format!("giant-{idx}"), gen::giant_program(&mut p))
+        } else {
+            ("huge", format!("huge-{idx}"), gen::huge_program(&mut p))
+        }
     } else if p.chance(1, 4) && plan.n_corpus > 0 {
         let e = &plan.corpus[p.usize_below(plan.corpus.len())];
         ("concurrent", e.name.clone(), e.src.clone())
@@ -708,6 +750,14 @@ pub fn make_world(plan: &Plan, seed: u64, idx: u64) -> (World, String, Prng) {
             let f = fns[0].clone();
             let st = Step { fn_name: f, opts: Opts { register: false, dedup: true }, mode: Mode::Src, perm: vec![], cap: 0, warm_src: None, src_offset: 0 };
             party.steps = vec![st.clone(), st];
+            if name.starts_with("giant") {
+                // the register allocator on more than 2^24 wires, twice per party
+                let st = Step { fn_name: fns[0].clone(), opts: Opts { register: true, dedup: false }, mode: Mode::Src, perm: vec![], cap: 0, warm_src: None, src_offset: 0 };
+                party.steps = vec![st.clone(), st];
+            }
+        }
+        if name.starts_with("giant") {
+            parties.truncate(2);
         }
     }
     let mut concurrent = None;
@@ -751,7 +801,7 @@ pub fn make_world(plan: &Plan, seed: u64, idx: u64) -> (World, String, Prng) {
     } else if family == "huge" {
         // one cold process party, nothing else
         let keys = Keys { k0: p.next_u64(), k1: p.next_u64(), drift: 0 };
-        let target = simple_step(&fns[0], Opts { register: false, dedup: true });
+        let target = simple_step(&fns[0], if name.starts_with("giant") { Opts { register: true, dedup: false } } else { Opts { register: false, dedup: true } });
         parties.push(PartySpec { keys, steps: vec![target.clone()], process: true, alloc_limit: None, env_flip: vec![], build: None, cpus: None });
         parties.push(PartySpec { keys, steps: vec![target], process: true, alloc_limit: None, env_flip: vec![], build: None, cpus: Some(2) });
     } else if family != "ill_typed" && !light {
